@@ -1,9 +1,11 @@
 """C11 — classification pairs objects by identity and scores them by label agreement.
 
-Deductive part: ClassificationAccuracy (counting loop and the four formulas, their range, the all-correct case).
-Bounded part (stand-in, never counted as proved): the identity-based pairing functions _get_object_results_with_id /
-_get_object_results_for_tlr use list.remove on working copies inside nested loops; they are checked exhaustively on
-the real code for all label assignments of up to 3 estimates x 3 ground truths over 2 camera frames (replay/C11.py).
+Deductive part: ClassificationAccuracy (counting loop, the four formulas, their range, the all-correct case, the constructor pooling per-frame lists);
+_get_object_results_with_id (paired iff same uuid and camera, each object once: positional invariants over the working copies);
+_get_object_results_for_tlr for both uuid-first settings (pairs by label [and uuid] or by uuid within one camera, each object at most once, no pair by label or
+by uuid left among the unpaired: universal invariants); the dispatch of ROI-less 2-D objects in get_object_results.
+Bounded part (stand-in, never counted as proved): "the number of label-correct pairs is the largest possible" — exhaustively on the real code for all label
+assignments of up to 3 estimates x 3 ground truths over 2 camera frames (replay/C11.py).
 """
 from pyvc.api import *
 from pyvc.lemmas import count_fn, add_count_lemmas, int_fn, pred_fn, rank_inverse, add_rank_lemmas
@@ -91,11 +93,14 @@ def build(P):
     pairing_tasks(P)
     dispatch_tasks(P)
     tlr_tasks(P)
-    P.bounded.append(dict(what="_get_object_results_with_id / _get_object_results_for_tlr (identity-based pairing, maximal number of label-correct pairs)",
-                          bound="exhaustive: up to 3 estimates x 3 ground truths, 3 labels, 2 camera frames, unique uuids per side and frame, both uuid-first settings",
+    P.bounded.append(dict(what="'the number of label-correct pairs is the largest possible under the rule' (and, again, every pairing clause on the real functions end to end)",
+                          bound="exhaustive: up to 3 estimates x 3 ground truths, 3 labels, 2 camera frames, unique uuids per side and frame, both uuid-first settings; shared ids across cameras sampled",
                           where="replay/C11.py on the real functions"))
-    P.uncover("pairing clauses of the statement are decided only up to the stated bound (list.remove on working copies inside nested loops is outside the engine's list model)")
+    P.uncover("maximality of the NUMBER of label-correct pairs is not a proof obligation: it follows from the verified 'no label pair is left among the unpaired' because objects of equal "
+              "label and camera form complete bipartite classes (argued in DESIGN.md), and is checked up to the stated bound")
     P.assume("label agreement of a pair is is_label_correct (policy table: C01's _get_score_table contract)")
+    P.assume("estimates / ground truths are lists of pairwise distinct objects with non-null uuids (posE / posG: each object knows its input position); for _get_object_results_with_id "
+             "additionally uuids are unique per side and camera (the property's quantifier domain)")
 
 
 def models(P):
